@@ -278,3 +278,39 @@ Definition spec_name_now (k : know) : option bytes :=
          | [] => Some comm
          end
        end.
+
+(* ------------------------------------------- bytes never reach str() / format() *)
+(* Under `python -bb` str(b) / format(b) / b == 'text' raise BytesWarning.  The readers hold the kernel's
+   text as bytes; these are their bytes-typed locals (from reading the code), per function:
+   plain bytes variables, and containers whose elements are bytes. *)
+Definition bytes_vars (fn : bytes) : list bytes :=
+  if beqb fn (bs "_parse_stat_file") then [bs "data"; bs "name"]
+  else if beqb fn (bs "_is_zombie") then [bs "data"; bs "status"]
+  else if beqb fn (bs "status") then [bs "letter"]
+  else if beqb fn (bs "threads") then [bs "st"]
+  else if beqb fn (bs "ppid_map") then [bs "data"]
+  else if beqb fn (bs "boot_time") then [bs "line"]
+  else if beqb fn (bs "pids") then [bs "x"; bs "path"]
+  else if beqb fn (bs "uids") || beqb fn (bs "gids") then [bs "data"; bs "real"; bs "effective"; bs "saved"]
+  else if beqb fn (bs "num_threads") || beqb fn (bs "num_ctx_switches") then [bs "data"]
+  else [].
+Definition bytes_containers (fn : bytes) : list bytes :=
+  [bs "call:_parse_stat_file"; bs "call:findall"; bs "call:split"] ++
+  (if beqb fn (bs "_parse_stat_file") then [bs "fields"; bs "ret"]
+   else if beqb fn (bs "cpu_times") then [bs "values"]
+   else if beqb fn (bs "threads") then [bs "values"]
+   else if beqb fn (bs "ppid_map") then [bs "dset"]
+   else if beqb fn (bs "num_ctx_switches") then [bs "ctxsw"]
+   else []).
+Definition mem_bytes (x : bytes) (l : list bytes) : bool := existsb (beqb x) l.
+(* a site is harmless unless it formats (or compares with a str) a bytes variable, a slice of one,
+   or an element of a bytes container *)
+Definition site_ok (s : bytes * bytes * bytes * bytes) : bool :=
+  let '(fn, kind, shape, name) := s in
+  if beqb shape (bs "var") || beqb shape (bs "slice") then negb (mem_bytes name (bytes_vars fn))
+  else if beqb shape (bs "index") then negb (mem_bytes name (bytes_containers fn))
+  else true.
+Definition c06_readers : list bytes :=
+  [bs "_parse_stat_file"; bs "_read_status_file"; bs "_is_zombie"; bs "name"; bs "ppid"; bs "status"; bs "terminal";
+   bs "cpu_times"; bs "cpu_num"; bs "create_time"; bs "uids"; bs "gids"; bs "num_threads"; bs "num_ctx_switches";
+   bs "threads"; bs "ppid_map"; bs "boot_time"; bs "pids"; bs "wrap_exceptions"].
